@@ -36,6 +36,9 @@ pub struct Entry {
     pub id: usize,
     pub call: fn(&In) -> Option<darling::Result<Val>>,
     pub from_none: fn() -> Option<Val>,
+    /// names of the plain magic fields that are not *structurally* identical (syn's PartialEq) to the input's
+    /// part; None when the receiver has no such field, the input kind does not match or the conversion failed
+    pub exact: fn(&In) -> Option<Vec<&'static str>>,
 }
 
 pub struct Reg {
@@ -192,6 +195,77 @@ pub fn call_entry(entry: &Entry, s: &Spec, text: &str) -> Result<darling::Result
         Ok(None) => Err(Fail::new("l3:harness-entry", "entry point does not match the receiver's trait")),
         Err(p) => Err(Fail::new(format!("l3:panic:{}", vmodel::util::panic_sig(&p)), format!("receiver R{} panicked on `{}`: {}", s.id, text, p))),
     }
+}
+
+/// Wrap every field type, discriminant and type-parameter default of the item in an invisible group (what an
+/// item produced by `macro_rules!` with `$t:ty` / `$e:expr` fragments looks like).
+pub fn add_invisible_groups(di: &mut syn::DeriveInput) {
+    fn ty(t: &mut syn::Type) {
+        let inner = t.clone();
+        *t = syn::Type::Group(syn::TypeGroup { group_token: Default::default(), elem: Box::new(inner) });
+    }
+    fn ex(e: &mut syn::Expr) {
+        let inner = e.clone();
+        *e = syn::Expr::Group(syn::ExprGroup { attrs: vec![], group_token: Default::default(), expr: Box::new(inner) });
+    }
+    fn fields(fs: &mut syn::Fields) {
+        for f in fs.iter_mut() {
+            ty(&mut f.ty);
+        }
+    }
+    for p in di.generics.params.iter_mut() {
+        if let syn::GenericParam::Type(tp) = p {
+            if let Some(d) = tp.default.as_mut() {
+                ty(d);
+            }
+        }
+    }
+    match &mut di.data {
+        syn::Data::Struct(s) => fields(&mut s.fields),
+        syn::Data::Enum(e) => {
+            for v in e.variants.iter_mut() {
+                fields(&mut v.fields);
+                if let Some((_, d)) = v.discriminant.as_mut() {
+                    ex(d);
+                }
+            }
+        }
+        syn::Data::Union(u) => {
+            for f in u.fields.named.iter_mut() {
+                ty(&mut f.ty);
+            }
+        }
+    }
+}
+
+/// `exact` on the element as parsed and on the same element with invisible groups added.
+pub fn exact_entry(entry: &Entry, s: &Spec, text: &str) -> Result<Vec<(&'static str, bool)>, Fail> {
+    let mut di: syn::DeriveInput = syn::parse_str(text).map_err(|e| Fail::new("l3:harness-render", format!("`{}` is no item: {}", text, e)))?;
+    let mut out = vec![];
+    for grouped in [false, true] {
+        if grouped {
+            add_invisible_groups(&mut di);
+        }
+        let r = catch(|| match s.tr {
+            Trait::FromDeriveInput => (entry.exact)(&In::DeriveInput(&di)),
+            Trait::FromField => match &di.data {
+                syn::Data::Struct(st) => st.fields.iter().next().and_then(|f| (entry.exact)(&In::Field(f))),
+                _ => None,
+            },
+            Trait::FromVariant => match &di.data {
+                syn::Data::Enum(e) => e.variants.iter().next().and_then(|v| (entry.exact)(&In::Variant(v))),
+                _ => None,
+            },
+            Trait::FromTypeParam => di.generics.type_params().next().and_then(|t| (entry.exact)(&In::TypeParam(t))),
+            _ => None,
+        });
+        match r {
+            Ok(Some(bad)) => out.extend(bad.into_iter().map(|b| (b, grouped))),
+            Ok(None) => {}
+            Err(p) => return Err(Fail::new(format!("l3:panic:{}", vmodel::util::panic_sig(&p)), format!("receiver R{} panicked on `{}` (invisible groups: {}): {}", s.id, text, grouped, p))),
+        }
+    }
+    Ok(out)
 }
 
 fn span_expect(at: &At, side: &Side, root: (usize, usize)) -> Option<((usize, usize), bool)> {
